@@ -24,7 +24,11 @@ class Comp:
         self.calls = []
         Comp.created.append(self)
 
+    eqfault = False
+
     def __eq__(self, o):
+        if self.eqfault:
+            raise ValueError('cannot be compared right now')
         return isinstance(o, Comp) and self.k == o.k
 
     def __ne__(self, o):
@@ -146,7 +150,7 @@ def _run(ctx, rng, big, events):
 
     for step in range(rng.randint(5, 45 if big else 30)):
         del events[:]
-        op = rng.choice(['ru', 'ru', 'ru', 'uu', 'ra', 'ra', 'ua', 'rs', 'rs', 'us', 'rh', 'uh', 'reinit'])
+        op = rng.choice(['ru', 'ru', 'ru', 'uu', 'ra', 'ra', 'ua', 'rs', 'rs', 'us', 'rh', 'uh', 'reinit', 'copy'])
         c = newcomp()
         prov = rng.choice(P)
         name = rng.choice(['', 'a', 'b'])
@@ -156,7 +160,19 @@ def _run(ctx, rng, big, events):
         accept = None      # list of acceptable event-kind sequences
         noevent = False
         where = {'op': op, 'comp': repr(c), 'provided': nm(prov), 'name': name, 'required': nm(req), 'info': info}
-        if op == 'reinit' and use_base and rng.random() < 0.5:
+        if op == 'copy':
+            # the object goes through copy / the reduce protocol (what persistence does between transactions): the volatile
+            # bookkeeping is not part of the state and is worked out again from the listings on first use
+            import copy as _copy
+            how = rng.choice(['copy', 'dropcache', 'dropcache'])
+            ctx.op('copy', how)
+            if how == 'copy':
+                comps = _copy.copy(comps)
+            else:
+                comps._v_utility_registrations_cache = None
+            ctx.count('volatile_state_dropped[%s]' % how)
+            accept = [[]]
+        elif op == 'reinit' and use_base and rng.random() < 0.5:
             # the *base* is re-initialised (it gets new registries), the same bases are assigned again - as an
             # application does after re-configuring - and the base gets its registrations back
             ctx.op('reinit-base')
@@ -218,6 +234,19 @@ def _run(ctx, rng, big, events):
                 comps.registerUtility(c, prov, info=info)
             elif form == 'noevent':
                 comps.registerUtility(c, prov, name, info, event=False)
+            elif form == 'explicit' and old is None and rng.random() < 0.15:
+                # a component that cannot be compared at the moment (a proxy whose target is gone, say): the call either
+                # fails as a whole or succeeds as a whole
+                c.eqfault = True
+                try:
+                    comps.registerUtility(c, prov, name, info)
+                    failed = False
+                except ValueError:
+                    failed = True
+                c.eqfault = False
+                ctx.count('utility_registrations_with_a_comparison_fault[%s]' % ('failed' if failed else 'passed'))
+                if failed:
+                    old = (c, info)       # (judged as a call that changed nothing)
             else:
                 comps.registerUtility(c, prov, name, info)
             ctx.count('utility_forms[%s]' % form)
